@@ -25,7 +25,7 @@ class ResultAdapter(tsrules.Adapter):
         return None
 
     def expected_live(self, obs, alts):
-        return [alts[0]] if obs[0] else []
+        return [alts[0]] if (obs[0] and alts) else []      # scalar T: no lifetime cells
 
     def post(self, fn, choice, before, after, obs_b, rv):
         out = []
@@ -44,10 +44,41 @@ class ResultAdapter(tsrules.Adapter):
         if single is not None and (fn.get('ctor') or n == 'operator='):
             if single[0] == 'elem' and after != (1, 0, self.none):
                 out.append('assigning/constructing from a value yields %s' % (after,))
-            if single[0] == 'val':
+            if single[0] == 'val' and not ps[0].get('enum'):
+                if after != (1, 0, self.none):
+                    out.append('assigning/constructing from a value yields %s' % (after,))
+            elif single[0] == 'val':
                 want = self.empty_obs if single[1] == self.none else (0, 1, single[1])
                 if after != want:
                     out.append('assigning/constructing from error code %s yields %s, expected %s' % (single[1], after, want))
+        if fn.get('defaultctor') and after != self.empty_obs:
+            out.append('default construction yields %s' % (after,))
+        return out
+
+
+class ResultVoidAdapter(ResultAdapter):
+    """Result<E, void>: a separate specialisation that holds only the error code"""
+    observers = ('has_error', 'error')
+
+    def __init__(self, enum=None):
+        ResultAdapter.__init__(self, enum)
+        self.empty_obs = (0, self.none)
+
+    def expected_live(self, obs, alts):
+        return []
+
+    def post(self, fn, choice, before, after, obs_b, rv):
+        out = []
+        he, err = after
+        if bool(he) != (err != self.none):
+            out.append('has_error() is %s but error() is %s' % (he, err))
+        single = choice[0] if len(choice) == 1 else None
+        if single is not None and single[0] == 'val' and (fn.get('ctor') or fn['n'] == 'operator='):
+            want = (int(single[1] != self.none), single[1])
+            if after != want:
+                out.append('assigning/constructing from error code %s yields %s, expected %s' % (single[1], after, want))
+        if fn['n'] == 'clear' and after != self.empty_obs:
+            out.append('clear() leaves %s' % (after,))
         if fn.get('defaultctor') and after != self.empty_obs:
             out.append('default construction yields %s' % (after,))
         return out
@@ -58,7 +89,8 @@ class OptionalAdapter(tsrules.Adapter):
     empty_obs = (1,)
 
     def expected_live(self, obs, alts):
-        return [] if obs[0] else [alts[0]]
+        # a trivially destructible element has no lifetime cells: the specialised State/Storage twins copy raw storage
+        return [] if (obs[0] or not alts) else [alts[0]]
 
     def post(self, fn, choice, before, after, obs_b, rv):
         out = []
@@ -92,7 +124,15 @@ def typestate(chk, db, prefix=''):
         targets.append((q, ResultAdapter(db.enums.get(en)), 'Result<%s,' % en + ('std::string' if 'basic_string' in q else 'T') + '>'))
     for q in pick_class(db, 'nop::Optional', lambda q: nontrivial(q) and '::' not in q.split('>')[-1])[:2]:
         targets.append((q, OptionalAdapter(), 'Optional<' + ('std::string' if 'basic_string' in q else 'NonTrivial') + '>'))
-    if len(targets) < 4:
+    # the trivially-destructible State/Storage specialisations of Optional, Result over a scalar, and Result<E, void>
+    for q in pick_class(db, 'nop::Optional', lambda q: q == 'nop::Optional<int>'):
+        targets.append((q, OptionalAdapter(), 'Optional<int>'))
+    for q in pick_class(db, 'nop::Result', lambda q: q == 'nop::Result<Err, int>'):
+        targets.append((q, ResultAdapter(db.enums.get('Err')), 'Result<Err,int>'))
+    for q in pick_class(db, 'nop::Result', lambda q: q in ('nop::Result<Err, void>', 'nop::Result<Err2, void>')):
+        en = q[len('nop::Result<'):].split(',')[0]
+        targets.append((q, ResultVoidAdapter(db.enums.get(en)), 'Result<%s,void>' % en))
+    if len(targets) < 8:
         chk.unanalysable(prefix + 'L', 'nop/types', 'Result/Optional instances over a non-trivial element type not found in the probes')
     for q, ad, label in targets:
         try:
